@@ -123,12 +123,15 @@ def findDefinition (v : Var) : Formula → Option GTerm
   | .bin .and l r => (findDefinition v l).orElse fun _ => findDefinition v r
   | _ => none
 
+/-- one step of the loop in `substitute_defined_variables`: replace `v` by its definition, if any -/
+def definedStep (b : Formula) (v : Var) : Formula :=
+  match findDefinition v b with
+  | some d => b.subst v d
+  | none => b
+
 def substituteDefinedVariables : Formula → Formula
   | .quant .ex vs f =>
-    let body := vs.reverse.foldl (fun (b : Formula) v =>
-      match findDefinition v b with
-      | some d => b.subst v d
-      | none => b) f
+    let body := vs.reverse.foldl definedStep f
     body.quantify .ex vs
   | f => f
 
